@@ -20,7 +20,7 @@ func (c20) ID() string { return "C20" }
 func (c20) Info(tier string) fw.Info {
 	return fw.Info{
 		Level: "exploration",
-		Rule: "programs of the class the property states — the shipped examples/*.hms and tests/*.hms that are accepted and finish within 3M instructions (no sleep/spawn/network), and a seeded class-restricted generator (props/c20/gen.go: pure operands wherever the transformer reorders or duplicates [+ - * < > <= >=], impure operands where it keeps the order [/ % == != && ||], integer multiplications with right operand 0..12, int literals below 2^20, floats that keep all arithmetic exact, globals, functions with early returns, recursion, while/loop/for with break/continue, if/else-if/else and blocks as statements and values, try/catch, lists, casts) — are analysed; " +
+		Rule: "programs of the class the property states — the shipped examples/*.hms and tests/*.hms that are accepted and finish within 3M instructions (no sleep/spawn/network), and a seeded class-restricted generator (props/c20/gen.go: pure operands wherever the transformer reorders or duplicates [+ - * < > <= >=], impure operands where it keeps the order [/ % == != && ||], integer multiplications with right operand 0..12, int literals below 2^20, floats that keep all arithmetic exact, globals, functions with early returns, recursion, while/loop/for with break/continue, if/else-if/else and blocks as statements and values, try/catch with general try and catch bodies, break/continue/return below towers of carrier constructs [then/else/else-if branches, block statements, try blocks, catch blocks, non-default match arms, value blocks in call arguments, (compound) assignments, list elements, indices, cast/prefix/division operands and let initialisers] with conditions that depend on the loop counter, a loop-control-focused sub-population, lists, casts) — are analysed; " +
 			"fuzzer.NewTransformer(seed).Transform is applied 1,2,3(,5) times in a chain exactly as fuzzer.Generator does, for a window of transformer seeds per program; every printed variant (AnalyzedProgram.String()) must be accepted by the analyzer and produce the same VM effects and outcome as the original (limits 2048/500/100000); a panic of Transform or String is an event. " +
 			"Programs whose UNtransformed tree already fails print+reparse+run are printer defects (C19): counted as printer-baseline-broken, only Transform panics are judged for them. Constructs poisoned by an open finding are kept out of the main workload (checked on the analysed tree by props/c20/tags.go) and exercised by a small poisoned workload each. " +
 			"non-trivial = at least one variant whose text differs from the printed original was produced (or a refuting event was seen) and the original writes at least 2 lines; distinct = distinct source text",
